@@ -157,12 +157,6 @@ class LoopParser(SubParser):
     def _pre_loop_with(self, code_gen, context_stack) -> bool:
         if not self._init_index_var(context_stack):
             return False
-        if self.current_token.is_a(TokenTypes.IN):
-            context_stack.add_variable(self._index_var)
-            code_gen.add_instruction(OpCode.MOVEQ, 0, LoopVar.COUNTER)
-            self._loop_type = _LoopType.LIST
-            self.next_token()
-            return self._pre_loop_list(code_gen, context_stack)
         if self.current_token.is_a(TokenTypes.FROM):
             self.next_token()
             if not self._index_var_range(code_gen):
